@@ -1,4 +1,5 @@
 import InTotoModel.Lemmas.Verify
+import InTotoModel.Generated.Pipeline
 /-
   C15 — Delegated sub-layouts are verified as strictly as the top-level layout.
 
@@ -89,5 +90,14 @@ theorem c15_summary {env : Env K} {ord : Ord}
     intro f l hf hl
     exfalso
     exact hno f l hf hl
+
+/-- **Tie to the source.**  Read from src/verifylib.rs on every run: `verify_sublayouts` verifies a
+    delegated layout by calling the full entry point `in_toto_verify` (and no other function of the
+    pipeline), and `in_toto_verify` has no early exit besides the "not a layout" rejection - so a
+    sub-layout goes through every stage the top-level layout goes through, which is what the
+    recursion of the model `verify` says. -/
+theorem c15_source_sublayouts_go_through_the_full_entry_point :
+    Generated.sublayoutCalls = ["in_toto_verify"] ∧ Generated.pipelineReturns.length = 1 ∧
+    Generated.pipelineStages.all (fun s => s.depth == 0) = true := by decide
 
 end InToto.Verify
